@@ -87,6 +87,12 @@ func VerifFramingProbe(sizes []int, fill func(n int) []byte) ([]VerifFrameResult
 		return nil, fmt.Errorf("warm-up frame: %v", err)
 	}
 	var out []VerifFrameResult
+	type heldMsg struct {
+		m    *TransportMessage
+		data []byte
+		idx  int
+	}
+	var held []heldMsg
 	for _, n := range sizes {
 		res := VerifFrameResult{Case: "frame", Size: n}
 		data := fill(n)
@@ -116,8 +122,18 @@ func VerifFramingProbe(sizes []int, fill func(n int) []byte) ([]VerifFrameResult
 			res.RecvErr = got.err.Error()
 		} else {
 			res.Equal = int(got.m.Size) == len(data) && bytes.Equal(got.m.Data, data) && got.m.Version == TransportMessageVersion
+			if res.Equal && n <= 1<<22 {
+				held = append(held, heldMsg{got.m, data, len(out)})
+			}
 		}
 		out = append(out, res)
+	}
+	// a message that was handed out stays what it was when later frames arrive on the same connection
+	for _, h := range held {
+		if !bytes.Equal(h.m.Data, h.data) {
+			out[h.idx].Equal = false
+			out[h.idx].RecvErr = "the received message changed after later frames arrived on the connection"
+		}
 	}
 	// frames whose bytes reach the receiver in pieces (the 6-byte header split after k bytes, a pause, then the rest;
 	// the body in two pieces as well): what a congested or re-packetised path does to a stream
